@@ -127,9 +127,16 @@ func c11Backend(c *Ctx) {
 	fn := c.Fn("cmd/rdpgw/protocol", "Processor.Process")
 	rwcF := c.FieldVar("cmd/rdpgw/protocol", "Tunnel", "rwc")
 	var dials []*ssa.Call
-	for _, ci := range callsIn(fn) {
-		if n := calleeName(ci); strings.HasPrefix(n, "net.Dial") {
-			dials = append(dials, ci.(*ssa.Call))
+	dialFn := fn
+	for _, sf := range scopeFuncs(fn, 1) {
+		if sf.Parent() != nil || sf != fn && !c.onlyCalledFrom(sf, fn, 0) {
+			continue
+		}
+		for _, ci := range callsIn(sf) {
+			if n := calleeName(ci); strings.HasPrefix(n, "net.Dial") {
+				dials = append(dials, ci.(*ssa.Call))
+				dialFn = sf
+			}
 		}
 	}
 	if len(dials) == 0 {
@@ -138,14 +145,23 @@ func c11Backend(c *Ctx) {
 	}
 	// the dial result is stored into Tunnel.rwc
 	stored := false
-	eachInstr(fn, func(in ssa.Instruction) {
+	loopFns := []*ssa.Function{fn}
+	if dialFn != fn {
+		loopFns = append(loopFns, dialFn)
+	}
+	eachLoopInstr := func(f func(in ssa.Instruction)) {
+		for _, lf := range loopFns {
+			eachInstr(lf, f)
+		}
+	}
+	eachLoopInstr(func(in ssa.Instruction) {
 		if s, ok := in.(*ssa.Store); ok {
 			if _, f, ok := fieldOfAddr(s.Addr); ok && f == rwcF && strip(s.Val) == resultOf(dials[0], 0) {
 				stored = true
 			}
 		}
 	})
-	eachInstr(fn, func(in ssa.Instruction) {
+	eachLoopInstr(func(in ssa.Instruction) {
 		if s, ok := in.(*ssa.Store); ok {
 			if _, f, ok := fieldOfAddr(s.Addr); ok && f == rwcF {
 				isDial := false
@@ -191,8 +207,17 @@ func c11Backend(c *Ctx) {
 	}
 	early := true
 	for _, d := range dials {
-		if !dominatesInstr(deferInstr, d) {
-			early = false
+		if d.Parent() == fn {
+			if !dominatesInstr(deferInstr, d) {
+				early = false
+			}
+			continue
+		}
+		// the dial sits in a helper of the loop: the defer must precede every call of that helper
+		for _, ci := range callsIn(fn) {
+			if ci.Common().StaticCallee() == d.Parent() && !dominatesInstr(deferInstr, ci.(ssa.Instruction)) {
+				early = false
+			}
 		}
 	}
 	c.Check(early && !inCycle(deferInstr.Block()), rule, "Process defer-before-dial", deferInstr.Pos(), "the closing defer is registered before any dial, outside the loop", "the closing defer is not registered on every path before the dial")
@@ -209,7 +234,7 @@ func c11Backend(c *Ctx) {
 	}
 	c.Check(!skip, rule, "Process deferred-close whenever-set", closer.Pos(), "closes Tunnel.rwc whenever it is non-nil", "the deferred function can return without closing a non-nil Tunnel.rwc (the close depends on something other than the connection being set): some way of ending the tunnel leaks the backend connection")
 	// the relay goroutine reads that same connection
-	eachInstr(fn, func(in ssa.Instruction) {
+	eachLoopInstr(func(in ssa.Instruction) {
 		g, ok := in.(*ssa.Go)
 		if !ok {
 			return
@@ -221,7 +246,7 @@ func c11Backend(c *Ctx) {
 	})
 	// no other writer of rwc that could orphan an open connection
 	for _, f := range c.allFirstPartyFuncs() {
-		if f == fn || !c.Reachable()[f] {
+		if f == fn || f == dialFn || !c.Reachable()[f] {
 			continue
 		}
 		eachInstr(f, func(in ssa.Instruction) {
